@@ -1140,6 +1140,13 @@ orc_compiler_global_reg_alloc (OrcCompiler *compiler)
         }
         if (var->need_offset_reg) {
           var->ptr_offset = orc_compiler_allocate_register (compiler, FALSE);
+          /* the resampling rules have no fallback for pointers kept on
+           * the stack */
+          if (var->ptr_offset == 0 || var->ptr_register == 0) {
+            orc_compiler_error (compiler,
+                "register overflow for gp register of a resampled source");
+            compiler->result = ORC_COMPILE_RESULT_UNKNOWN_COMPILE;
+          }
         }
         break;
       case ORC_VAR_TYPE_DEST:
